@@ -174,6 +174,9 @@ func verifyBJJSignatureProof(ctx context.Context, proof BJJSignatureProof2021,
 		return err
 	}
 
+	if proof.IssuerData.State.Value == nil {
+		return errors.New("issuer state value is not set")
+	}
 	issuerStateHash, err := merkletree.NewHashFromHex(*proof.IssuerData.State.Value)
 	if err != nil {
 		return fmt.Errorf("invalid state formant: %v", err)
@@ -192,7 +195,7 @@ func verifyBJJSignatureProof(ctx context.Context, proof BJJSignatureProof2021,
 	}
 
 	// Published or genesis
-	if !*vm.IdentityState.Published {
+	if vm.IdentityState.Published == nil || !*vm.IdentityState.Published {
 		var (
 			isGenesisState bool
 			issuerID       core.ID
@@ -283,6 +286,9 @@ func verifyIden3SparseMerkleTreeProof(ctx context.Context,
 		return err
 	}
 
+	if proof.IssuerData.State.Value == nil {
+		return errors.New("issuer state value is not set")
+	}
 	issuerStateHash, err := merkletree.NewHashFromHex(*proof.IssuerData.State.Value)
 	if err != nil {
 		return fmt.Errorf("invalid state formant: %v", err)
@@ -301,7 +307,7 @@ func verifyIden3SparseMerkleTreeProof(ctx context.Context,
 	}
 
 	// Published or genesis
-	if !*vm.IdentityState.Published {
+	if vm.IdentityState.Published == nil || !*vm.IdentityState.Published {
 		var (
 			isGenesisState bool
 			issuerID       core.ID
@@ -325,9 +331,15 @@ func verifyIden3SparseMerkleTreeProof(ctx context.Context,
 		return err
 	}
 
+	if proof.MTP == nil {
+		return errors.New("merkle tree proof is not set")
+	}
 	rootFromProof, err := merkletree.RootFromProof(proof.MTP, hi, hv)
 	if err != nil {
 		return err
+	}
+	if proof.IssuerData.State.ClaimsTreeRoot == nil {
+		return errors.New("issuer claims tree root is not set")
 	}
 	issuerClaimsTreeRoot, err := merkletree.NewHashFromHex(*proof.IssuerData.State.ClaimsTreeRoot)
 	if err != nil {
